@@ -180,6 +180,26 @@ def r162(ctx, rep):
                 else:
                     qv = norm(pair[0].value)
                     which = "pos" if "pos" in qv else ("neg" if "neg" in qv else "?")
+                    if which == "?" and isinstance(pair[0].value, ast.Name) and qv.startswith("q_val_"):
+                        # an intermediate selection (alpha_S, q_val_S): the pair must be assigned together, branch by branch
+                        suf = qv[len("q_val_"):]
+                        which = suf
+                        sel_ok = True
+                        nsel = 0
+                        for blk_owner in ast.walk(f.node):
+                            for fld in ("body", "orelse"):
+                                blk = getattr(blk_owner, fld, None)
+                                if not (isinstance(blk, list) and blk and isinstance(blk[0], ast.stmt)):
+                                    continue
+                                a_ = [x for x in blk if isinstance(x, ast.Assign) and any(isinstance(t, ast.Name) and t.id == f"alpha_{suf}" for t in x.targets)]
+                                q_ = [x for x in blk if isinstance(x, ast.Assign) and any(isinstance(t, ast.Name) and t.id == qv for t in x.targets)]
+                                if a_ or q_:
+                                    nsel += 1
+                                    if len(a_) != 1 or len(q_) != 1 or not (isinstance(a_[0].value, ast.Name) and isinstance(q_[0].value, ast.Name)) \
+                                            or a_[0].value.id.replace("alpha_", "") != q_[0].value.id.replace("q_val_", ""):
+                                        sel_ok = False
+                        if not sel_ok or nsel < 2:
+                            probs.append(f"the intermediate pair (alpha_{suf}, {qv}) is not selected together from (alpha_pos, q_val_pos) / (alpha_neg, q_val_neg)")
                     if f"alpha_{which}" not in norm(node.value):
                         probs.append(f"step uses a different step length than its value `{qv}`")
                     conj = par.test.values if isinstance(par.test, ast.BoolOp) and isinstance(par.test.op, ast.And) else [par.test]
@@ -195,7 +215,7 @@ def r162(ctx, rep):
                 rep.finding("R16.2", f, norm(node)[:100], node.lineno, "geometry step accepted without a strict improvement of the magnitude: " + "; ".join(probs))
             else:
                 rep.ok("R16.2", desc + " paired with its value under an improvement test")
-    if n < 2:
+    if n < 1:
         raise AnalysisError("spider_geometry: step updates not found")
     g = ctx.func(PUBLIC[3])  # cauchy_geometry
     ok = False
@@ -236,12 +256,19 @@ def r162(ctx, rep):
     for node in ast.walk(g.node):
         if isinstance(node, ast.Assign) and isinstance(node.targets[0], (ast.Tuple, ast.List)) and len(node.targets[0].elts) == 2 and isinstance(node.value, ast.Call):
             a, b = [norm(x) for x in node.targets[0].elts]
-            if (a, b) in (("step1", "q_val1"), ("step2", "q_val2")):
+            is_helper = any(t.kind == "repo" and t.name == HELPERS[0] for t in ctx.res.call_targets(node.value, g))
+            if is_helper:
                 pairs += 1
-                if (a, b) == ("step2", "q_val2"):
-                    from ..valueflow import arg_for
-                    hh = ctx.func(HELPERS[0])
-                    raw = [arg_for(node.value, hh, pn, "plain") for pn in hh.params[:3]]
+                from ..valueflow import arg_for
+                hh = ctx.func(HELPERS[0])
+                raw0 = arg_for(node.value, hh, hh.params[0], "plain")
+                # the second problem is the one solved for the negated quadratic: as soon as
+                # one of the three coefficients is negated all three must be
+                raw_all = [arg_for(node.value, hh, pn, "plain") for pn in hh.params[:3]]
+                some_neg = any(isinstance(x, ast.UnaryOp) and isinstance(x.op, ast.USub) for x in raw_all[:2]) or isinstance(raw_all[2], ast.Lambda) \
+                    or (isinstance(raw_all[2], ast.Name) and raw_all[2].id != hh.params[2])
+                if some_neg:
+                    raw = raw_all
                     args = [norm(x) if isinstance(x, ast.AST) else "?" for x in raw]
                     third = raw[2] if isinstance(raw[2], ast.AST) else None
                     if isinstance(third, ast.Name):
